@@ -55,6 +55,24 @@ def gen_case(rng, tier):
         max_rows_choices=(0, 2, 3, 5, 8),
     )
     g = gen.Gen(rng, cfg)
+    if rng.random() < 0.05:
+        # directed: two directly adjacent sorts (plain column terms, then terms that may be
+        # expressions) on a chain or a single table, optionally followed by a slice
+        cols = sorted(rng.sample("abcd", rng.randint(2, 3)))
+        st = g.leaf("sql", want_cols=cols, allow_special=False)
+        if rng.random() < 0.7:
+            other = g.leaf("sql", want_cols=sorted(st[1]), allow_special=False)
+            if other[1] == st[1]:
+                st = (["chain", st[0], other[0]], st[1], "sql")
+        cl = sorted(st[1])
+        first = [[["ref", c], rng.random() < 0.5] for c in rng.sample(cl, rng.randint(1, len(cl) - 1))]
+        rest = [c for c in cl if c not in {t[0][1] for t in first}]
+        e = ["ref", rng.choice(rest)]
+        second = [[rng.choice([["neg", e], ["mul", e, e], e, ["add", e, ["lit", 1]]]), rng.random() < 0.5]]
+        st = (["sort", ["sort", st[0], first, None], second, None], st[1], "sql")
+        if rng.random() < 0.4:
+            st = g.unary(st, "slice") or st
+        return gen.case_from(g, st)
     return gen.case_from(g, g.tree())
 
 
@@ -70,12 +88,22 @@ def sort_nodes(rel) -> int:
     return sum(1 for n in interp.walk(rel) if isinstance(n, R.UnaryOperationRelation) and isinstance(n.operation, R.Sort))
 
 
-def gate_stable(rel, mrel_stable) -> bool:
+def adjacent_sorts(sub) -> bool:
+    """The program node is a sort applied directly to a sort (documented to merge into one sort with
+    the new terms first: Sort.then), possibly under trailing projections / slices that keep order."""
+    while sub[0] in ("proj", "slice"):
+        sub = sub[1]
+    return sub[0] == "sort" and sub[1][0] == "sort" and bool(sub[2]) and bool(sub[1][2])
+
+
+def gate_stable(rel, mrel_stable, adjacent=False) -> bool:
     """Back-to-back sorts: the order is total only through the earlier sort's terms acting as
     tie-breakers.  Asserted only when the engine kept every sort of the program at the outermost
     query level (exactly one Sort node in the whole tree - the Select's own, which then has to
-    hold the composed terms); a sort nested in a sub-query gives no such guarantee."""
-    return gate(rel, mrel_stable) and sort_nodes(rel) == 1
+    hold the composed terms); a sort nested in a sub-query gives no such guarantee.  Directly
+    adjacent sorts (``adjacent``) are documented to merge, so their composed order is asserted
+    whatever the tree looks like."""
+    return gate(rel, mrel_stable) and (sort_nodes(rel) == 1 or adjacent)
 
 
 def run_case(case):
@@ -141,7 +169,7 @@ def run_case(case):
                 if not child_gate and (pc is None or not pc.det) and sc.det:
                     # the slice is deterministic only because an earlier sort breaks the ties of
                     # a later one: that needs both sorts at the outermost query level
-                    if child is not None and gate_stable(child, sc):
+                    if child is not None and gate_stable(child, sc, adjacent_sorts(sub[1])):
                         child_gate = True
                         c["slices_after_composed_sorts_checked"] = c.get("slices_after_composed_sorts_checked", 0) + 1
                     elif not model.slice_order_independent(sc.rows, sub[2], sub[3]):
@@ -176,7 +204,7 @@ def run_case(case):
                     if got != want.rows:
                         out["violations"].append({"kind": "order_not_honoured", "detail": f"{model.show(sub)} tree {short(subrel, 300)} sql {short(db.text(engines['sql'].to_executable(subrel)), 400) if not has_mat else ''} got {short(got, 300)} want {short(want.rows, 300)} (reverse={int(reverse)})"})
                         return out
-                elif gate_stable(subrel, want):
+                elif gate_stable(subrel, want, adjacent_sorts(sub)):
                     c["ordered_lists_compared_composed_sorts"] = c.get("ordered_lists_compared_composed_sorts", 0) + 1
                     outcome = "ordered_by_composed_sorts" if outcome == "built" else outcome
                     if got != want.rows:
